@@ -7,6 +7,7 @@ import (
 
 	"verifharness/ec"
 	"verifharness/ka"
+	"verifharness/kms"
 	"verifharness/rp"
 	"verifharness/vk"
 )
@@ -23,6 +24,7 @@ var checks = map[string]func(*vk.Run){
 	"C02": rp.RunC02,
 	"C09": rp.RunC09,
 	"C17": rp.RunC17,
+	"C20": kms.RunC20,
 }
 
 func main() {
